@@ -237,6 +237,7 @@ spif_mbuff_init_from_fp(spif_mbuff_t self, FILE *fp)
 
         if (fread(self->buff, file_size, 1, fp) < 1) {
             FREE(self->buff);
+            self->len = self->size = 0;
             return FALSE;
         }
     }
@@ -288,6 +289,7 @@ spif_mbuff_init_from_fd(spif_mbuff_t self, int fd)
 
         if (read(fd, self->buff, file_size) < 1) {
             FREE(self->buff);
+            self->len = self->size = 0;
             return FALSE;
         }
     }
